@@ -45,6 +45,18 @@ check("C33",
     assumptions=["single caller (the wheel documents that it is not concurrency safe); LockingTimerWheel is exercised sequentially"],
 )
 
+check("C28",
+    pkg="nebula", engine="A-netsim", scenarios=["C28.mesh"],
+    quick=tier(1500, 35), thorough=tier(60000, 900, shrink_s=120),
+    technique="deterministic whole-overlay simulation (real nodes, simulated network/clock/tun, seeded faults and operator) with the hostmap invariant evaluated on every node after every event",
+    rule="one run = a 2-4 node overlay (static or lighthouse discovery, multi-address peers, both curves) living 20-60 s (thorough: up to 230 s) of simulated time under drop/dup/reorder/delay/partition/stall/sendto faults, rehandshakes, closes, restarts, restarts with a re-issued certificate sharing only some addresses, direct deletes and promotions (including promotion right after deletion); distinct = distinct abstract trace hash; non-trivial = some address held >= 3 simultaneous tunnels",
+    level_text="Seeded search over tunnel add/remove/promote/relay histories produced by real handshakes and teardown paths on real nodes; after every simulator event every node's Hosts/moreHosts/Indexes/RemoteIndexes/Relays are checked against the statement (primary heads its list, <=5 distinct live owners, everything reachable is live, removed tunnels unreachable forever, DeleteHostInfo's reported value equals ground truth computed before the call). Evidence, not proof.",
+    level_note="Trusted: the harness wiring that mirrors Main (same constructors and order, no goroutines), the simulated socket/tun, and the invariant checker. Goroutine interleavings inside one node are not explored by this engine (single driver).",
+    real=["HostMap, HandshakeManager, handshake.Machine, connectionManager, LightHouse, relayManager, Interface packet paths, Firewall, PKI, config reload (all real, wired like Main)"],
+    stub=["UDP socket (simConn)", "tun device (simTun)", "goroutine loop shells (driver calls the loop bodies)", "wall clock (synctest bubble)", "crypto/rand (cryptotest seeded)"],
+    assumptions=["single-threaded driver: no intra-node goroutine interleavings"],
+)
+
 NOT_APPLICABLE = {
     "C03": "pure encode/decode round trip over input bytes; no clock, schedule, fault or second party for a simulator to control",
     "C04": "pure function of (certificate to sign, signer); offline CLI; nothing to schedule or fault",
